@@ -60,6 +60,34 @@ def run_where(prog, rep):
     rep.rules["C06.items-where"]["floor"] = 150
 
 
+def _exact_worker(prog, rep, job):
+    fails = {}
+    for j in job:
+        case = WH.case_index_exact(prog, *j)
+        rep.evaluations += 1
+        for aspect, ok, msg, qual in case.verdicts:
+            rep.oblige("C06.unusual-labels", ok, where=qual, what=str(case.inp), distinct=("C06.unusual-labels", str(case.inp)))
+            if not ok:
+                c = fails.get(qual)
+                fails[qual] = (c[0] + 1, c[1], c[2]) if c else (1, case.inp, msg)
+    return fails
+
+
+def run_exact_index(prog, rep):
+    rep.rule("C06.unusual-labels", "reads and writes by dict / tuple / item keys address exactly the labelled entries also when two dimensions hold the same items, "
+                                   "labels are 0 or the empty string, or items are typed numbers (a label that is not an item is refused)")
+    jobs = WH.index_exact_jobs(rep.tier)
+    fails = {}
+    for part in pmap(_exact_worker, [jobs[i::16] for i in range(16)], prog, rep):
+        for q, (n, inp, msg) in part.items():
+            c = fails.get(q)
+            fails[q] = (c[0] + n, c[1], c[2]) if c else (n, inp, msg)
+    for q, (n, inp, msg) in sorted(fails.items()):
+        module, line, sig = _locate(prog, q)
+        rep.add(Finding("C06", "C06.unusual-labels", module, q, sig, f"{msg} [{n} case(s)]", line=line, abstract_input=inp))
+    rep.rules["C06.unusual-labels"]["floor"] = 90
+
+
 def run(prog, rep):
     rep.rule("C06.read-region", "x[key] returns exactly the labelled entries, kept dimensions in order, requested item order")
     rep.rule("C06.write-region", "x[key] = v changes exactly the labelled entries")
@@ -72,6 +100,7 @@ def run(prog, rep):
     prog.method("FlodymArray", "__getitem__")
     run_array_property(prog, rep, "C06", ["index", "orders", "misc", "patterns", "index@uniform", "misc@uniform"], aspects)
     run_where(prog, rep)
+    run_exact_index(prog, rep)
     rep.rules["C06.read-region"]["floor"] = 85 if rep.tier == "quick" else 1000
     rep.rules["C06.write-region"]["floor"] = 85 if rep.tier == "quick" else 1365
     if rep.exhaustive is None:
